@@ -138,9 +138,10 @@ def lineage(rng):
             M.create_death_event('death', {}, 'massaction', {'k': 0.35, 'species': ''})
         M.py_initialize()
         py_seed_random(rng.randint(1, 10 ** 6))
-        tp = np.arange(0, 6.0 if with_death else 4.0, 0.05)
+        step = 0.5 if it % 3 == 2 else 0.05          # a coarse grid makes divisions inside the last interval likely
+        tp = np.arange(0, 6.0 if with_death else 4.0, step)
         lin = py_SimulateCellLineage(tp, Model=M)
-        call = 'py_SimulateCellLineage(np.arange(0, %r, 0.05), LineageModel(A -> B%s, dV/dt = 0.7 V, divide at V >= 2 with %s partition%s))' % (tp[-1] + 0.05, '' if exhaust else ', 0 -> A', mode, ', death event at rate 0.35' if with_death else '')
+        call = 'py_SimulateCellLineage(np.arange(0, %r, step), LineageModel(A -> B%s, dV/dt = 0.7 V, divide at V >= 2 with %s partition%s))' % (tp[-1] + step, '' if exhaust else ', 0 -> A', mode, ', death event at rate 0.35' if with_death else '')
         n = lin.py_size()
         for i in range(n):
             s = lin.py_get_schnitz(i)
@@ -157,7 +158,7 @@ def lineage(rng):
                     return dict(reproduced=True, call=call, what='daughters of cell %d start at' % i, observed=[float(t1[0]), float(t2[0])], expected=float(tt[-1]))
                 x1, x2 = np.array(d1.py_get_data())[0], np.array(d2.py_get_data())[0]
                 v1, v2 = np.array(d1.py_get_volume())[0], np.array(d2.py_get_volume())[0]
-                if exhaust and (x1 + x2).sum() != data[-1].sum():
+                if (x1 + x2).sum() != data[-1].sum():
                     return dict(reproduced=True, call=call, what='first rows of the daughters of cell %d vs last row of the mother' % i, observed=[x1.tolist(), x2.tolist()], expected=data[-1].tolist())
                 if abs(v1 + v2 - vol[-1]) > 0.2 * vol[-1]:
                     return dict(reproduced=True, call=call, what='daughter volumes of cell %d' % i, observed=[float(v1), float(v2)], expected=float(vol[-1]))
